@@ -330,6 +330,7 @@ def _write(fmt, path, tree, opts=None):
 
 GROWN = {"grown-nested-item": "nested", "grown-root-item": "root", "grown-nested-attr": "nested",
          "shared-field-object": "both",      # one IncludeField object mounted in two scopes under different keys
+         "flag-off-nested": "both",          # the nested section carries a feature flag that the including document sets false: its includes are merged all the same
          "env-bound": "both"}                # the schema sits under an environment prefix and the include fields' own variables are set
 
 
@@ -344,6 +345,10 @@ def _schema(variant, startdir, grown=None):
         kw = {"startdir": startdir} if startdir else {}
         s.include = cc.IncludeField(**kw)
         s.sub.inc = cc.IncludeField(**kw)
+        return s
+    if grown == "flag-off-nested":
+        s = _schema("both", startdir)
+        s.sub.enabled = cc.FeatureFlagField(default=True)
         return s
     if grown == "shared-field-object":
         s = _schema("none", startdir)
@@ -523,6 +528,9 @@ def _equiv(job, ctx):
                 files["n.inc"] = _mk(None, None, c[2], c[3], nested_only=True)
                 want = ref_merge(main, files["r.inc"])
                 want["sub"] = ref_merge(want.get("sub", {}), files["n.inc"])
+            if grown == "flag-off-nested":
+                main.setdefault("sub", {})["enabled"] = False
+                want["sub"] = dict(want.get("sub", {}), enabled=False)
             # every included file also carries untyped container values (stored by the configuration as parsed)
             for name, t in files.items():
                 if name == "d.inc":
@@ -552,7 +560,7 @@ def _equiv(job, ctx):
                 shared["schema"] = _schema(variant, startdir, grown)
             schema = shared["schema"]
             cfg = schema()
-            ref = _schema(variant, startdir, grown if grown == "env-bound" else None)()      # the reference side never touches the include machinery
+            ref = _schema(variant, startdir, grown if grown in ("env-bound", "flag-off-nested") else None)()      # the reference side never touches the include machinery
             fp = "C18|equiv|%s|%s|%s|" % (job["variant"], fmt, job["startdir"])
             case = _case(job, [mi, ci])
             ctx.transitions += 1
